@@ -119,7 +119,7 @@ def cases(tier, seed):
             for big in (1.0, 1000.0):
                 out.append(dict(cls="threshold", rel=rel, repr=rep, big=big, total=3))
     # (l) second-quantised perturbation that couples degenerate (resonant) levels
-    for model in ("boson-hop", "fermion-hop", "jc-resonant", "boson-hop-matrix", "two-photon"):
+    for model in ("boson-hop", "fermion-hop", "jc-resonant", "boson-hop-matrix", "two-photon", "fermion-spectator", "spin-spectator"):
         out.append(dict(cls="sq-resonant", model=model, total=2))
     # (n) implicit mode: orthonormal explicit vectors that do not span an invariant subspace of H_0 (one vector rotated
     #     towards an eigenvector of the complement): H_0 has a block between an explicit and the implicit subspace
@@ -823,6 +823,15 @@ def run_sq_resonant(case):
         H0, H1 = N(a) + N(sm), Dagger(sm) * a + sm * Dagger(a)
     elif model == "two-photon":
         H0, H1 = 2 * N(a) + N(b), Dagger(a) * b**2 + Dagger(b) ** 2 * a
+    elif model == "fermion-spectator":
+        # the coupled levels are split only by the occupation of a third fermion that the coupling does not touch
+        # (for a *boson* spectator the degeneracy occurs in one occupation sector out of infinitely many and the
+        # library returns the answer with its pole, e.g. 1/N_b, visible: not a shared level in the sense of the property)
+        e3 = FermionOp("e")
+        H0, H1 = 2 * (N(c) + N(d)) + 3 * N(e3) * N(c), Dagger(c) * d + Dagger(d) * c
+    elif model == "spin-spectator":
+        s2 = pauli.SigmaMinus("r")
+        H0, H1 = N(a) + N(sm) + 2 * N(s2) * N(sm), Dagger(sm) * a + sm * Dagger(a)
     else:
         H0 = sympy.Matrix([[N(a) + N(b), 0], [0, N(a) + N(b) + 3]])
         H1 = sympy.Matrix([[Dagger(a) * b + Dagger(b) * a, a], [Dagger(a), 0]])
